@@ -75,6 +75,7 @@ fn show_value(v: &Value) -> String {
         }
     }
 }
+fn show_ma(ma: &MultiAsset) -> String { let mut v = Value::new(&BigNum::zero()); v.set_multiasset(ma); show_value(&v) }
 fn show_rv(r: Result<Value, JsError>) -> String { match r { Ok(v) => show_value(&v), Err(_) => "err".into() } }
 
 // ---------------------------------------------------------------------------------------------
@@ -162,10 +163,12 @@ fn exec(t: &[&str]) -> String {
                 Err(_) => format!("err {}", flags),
                 Ok(mint) => {
                     let ma = mint.get(&pid).and_then(|l| l.get(0));
+                    let (pos, neg) = (mint.as_positive_multiasset(), mint.as_negative_multiasset());
                     let mut es = Vec::new();
                     for k in 0..4u64 {
                         es.push(match ma.as_ref().and_then(|m| m.get(&mint_name(k))) {
-                            Some(i) => format!("{}:{}", i.to_str(), g(|| hex::encode(i.to_bytes()))),
+                            Some(i) => format!("{}:{}:{}:{}", i.to_str(), g(|| hex::encode(i.to_bytes())),
+                                               pos.get_asset(&pid, &mint_name(k)).to_str(), neg.get_asset(&pid, &mint_name(k)).to_str()),
                             None => "~".into(),
                         });
                     }
@@ -175,6 +178,23 @@ fn exec(t: &[&str]) -> String {
                     format!("ok {} {}", flags, es.join(" "))
                 }
             }
+        }
+        ["mintv", ne, rest @ ..] => {
+            let ne: usize = ne.parse().unwrap();
+            let mut mint = Mint::new();
+            let mut i = 0usize;
+            for _ in 0..ne {
+                let pid = ScriptHash::from_bytes(hex::decode(rest[i]).unwrap()).unwrap();
+                let na: usize = rest[i + 1].parse().unwrap();
+                i += 2;
+                let mut ma = MintAssets::new();
+                for _ in 0..na {
+                    ma.insert(&AssetName::new(unhex_or_dash(rest[i])).unwrap(), &Int::from_str(rest[i + 1]).expect("Int")).expect("non-zero");
+                    i += 2;
+                }
+                mint.insert(&pid, &ma);
+            }
+            format!("ok {} {}", show_ma(&mint.as_positive_multiasset()), show_ma(&mint.as_negative_multiasset()))
         }
         ["biz", z] => {
             let b = BigInt::from_str(z).expect("bigint");
@@ -494,6 +514,56 @@ fn gen(dir: &str) {
             };
             let nk = if r.chance(1, 2) { 1 } else { 4 };
             s.push_str(&format!(" {} {} {}", if r.chance(3, 4) { "a" } else { "s" }, r.below(nk), z));
+        }
+        emit(&mut out, s);
+    }
+    // histories whose running sum lands on a boundary of the builder's range: -2^64-1, -2^64, -(2^64-1), 2^64-1, 2^64, 0, +-1
+    let (lo, hi) = (-(u64::MAX as i128), u64::MAX as i128);
+    for t in [lo - 2, lo - 1, lo, lo + 1, hi - 1, hi, hi + 1, hi + 2, 0i128, 1, -1, 1i128 << 63, -(1i128 << 63)] {
+        for _ in 0..3 * scale {
+            let k = 2 + r.below(3) as i128;            // number of parts
+            let mut parts: Vec<i128> = Vec::new();
+            let mut rest = t;
+            for j in 0..k {
+                let left = k - 1 - j;                   // parts still to come after this one
+                let a = if left == 0 { rest } else {
+                    // keep the remainder reachable by `left` legal parts
+                    let (min_a, max_a) = ((rest - left * hi).max(lo), (rest - left * lo).min(hi));
+                    let span = (max_a - min_a) as u128 + 1;
+                    let pick = match r.below(4) { 0 => min_a, 1 => max_a, _ => min_a + ((((r.next() as u128) << 64) | r.next() as u128) % span) as i128 };
+                    pick
+                };
+                parts.push(a);
+                rest -= a;
+            }
+            let key = r.below(2);
+            let mut s = format!("mint {}", parts.len());
+            for a in parts.iter() { s.push_str(&format!(" a {} {}", key, a)); }
+            emit(&mut out, s);
+        }
+    }
+    // --- Mint::as_positive_multiasset / as_negative_multiasset on hand-made Mints (duplicate policies, both signs, extremes)
+    let mint_pols: Vec<String> = (0..3).map(|k| hex::encode(policy_of(k).1.to_bytes())).collect();
+    for _ in 0..150 * scale {
+        let ne = 1 + r.below(4);
+        let mut s = format!("mintv {}", ne);
+        for _ in 0..ne {
+            let p = if r.chance(1, 3) { mint_pols[0].clone() } else { r.pick(&mint_pols).clone() };
+            let na = r.below(4);
+            let mut names: Vec<&str> = Vec::new();
+            let mut body = String::new();
+            for _ in 0..na {
+                let n = *r.pick(&["-", "61", "62", "6162", "0001", "ff"]);
+                if names.contains(&n) { continue; }
+                names.push(n);
+                let z: i128 = match r.below(8) {
+                    0 => hi, 1 => lo, 2 => lo - 1, 3 => (r.below(5) as i128) - 5, 4 => 1 + r.below(5) as i128,
+                    5 => (1i128 << 63) * if r.chance(1, 2) { 1 } else { -1 },
+                    _ => { let v = r.u64_edge() as i128; if v == 0 { 7 } else if r.chance(1, 2) { v } else { -v } }
+                };
+                body.push_str(&format!(" {} {}", n, z));
+            }
+            s.push_str(&format!(" {} {}{}", p, names.len(), body));
         }
         emit(&mut out, s);
     }
